@@ -434,7 +434,7 @@ def r6(R):
 
 
 @rule('C07.R7', 'the mapping storage keeps the newest revision not later '
-      'than the pack time and sweeps from the root', props=['C08', 'C15'],
+      'than the pack time and sweeps from the root', props=['C08', 'C15', 'C16'],
       min_instances=1)
 def r7(R):
     cls = R.prog.cls(MS)
@@ -684,3 +684,56 @@ def r10(R):
         R.require(seen[0] or vs, '%s no longer updates %s' % (meth, what))
         for v in vs:
             R.violation(v.node, v.message, g, v.path)
+
+
+# ----------------------------------------------------------------- C07.R11
+@rule('C07.R11', 'the storage\'s default for garbage collection stands in '
+      'for the gc argument of pack() only when the argument was not given '
+      '(is None): an explicit False stays False', props=['C16'],
+      min_instances=1)
+def r11(R):
+    cls = R.prog.cls(FS)
+    f = R.method(cls, 'pack')
+    if 'gc' not in f.params:
+        R.observe('FileStorage.pack takes no gc argument any more')
+        return
+    g, b, F = R.cfg(f, cls, max_depth=0)
+    R.instance('FileStorage.pack')
+    seen = [0]
+
+    def edge(node, st, lab, tgt):
+        if node.kind == 'test' and lab in ('T', 'F'):
+            for e, truth in implied_atoms(node.ast, lab):
+                if isinstance(e, ast.Compare) and len(e.ops) == 1 and \
+                        isinstance(e.left, ast.Name) and e.left.id == 'gc' \
+                        and isinstance(e.comparators[0], ast.Constant) and \
+                        e.comparators[0].value is None:
+                    return 'none' if isinstance(
+                        e.ops[0], ast.Is) == truth else 'given'
+        return st
+
+    def at(node, st):
+        for op in F.ops(node):
+            if op.kind == 'store' and op.path == ('%local', 'gc'):
+                v = store_value(op)
+                if v is not None and any(
+                        isinstance(x, ast.Attribute) and dotted(x) == (
+                            'self', '_pack_gc') for x in ast.walk(v)):
+                    seen[0] += 1
+                    if st != 'none':
+                        return Violation(
+                            'FileStorage.pack replaces its gc argument by '
+                            'the storage\'s default on a path on which the '
+                            'argument may have been given as False: a '
+                            'caller that must not have garbage collected '
+                            '(a demo storage with a base, a multi-database '
+                            'whose references come from another database) '
+                            'gets a garbage-collecting pack, which removes '
+                            'what only those references keep alive')
+        return st
+
+    vs, stats = explore(g, 'unknown', at=at, edge=edge)
+    R.count(stats)
+    for v in vs[:1]:
+        R.violation(v.node, v.message, g, v.path,
+                    key='explicit gc overridden by the default')
